@@ -173,6 +173,7 @@ def units(tier, seed):
     for i in range(ns):
         out.append(("is_prime-range", {"lo": -5 + i * (top + 5) // ns, "hi": -5 + (i + 1) * (top + 5) // ns}))
     out.append(("is_prime-adversarial", {}))
+    out.append(("interleaved", {"stride": 1, "max": 4000 if q else 40000}))
     out.append(("is_prime-random", {"examples": 3000 if q else 100000}))
     npt = 2 ** 13 if q else 2 ** 16
     for i in range(2):
@@ -186,7 +187,20 @@ def units(tier, seed):
     return out
 
 
+def _interleaved_jobs():
+    return {
+        "a": lambda: [NT.is_prime(1000003), NT.is_prime(3215031751), NT.next_prime(1300), NT.factorization(2 * 3 * 1237 * 1237),
+                      NT.gcd(12, 18, 30), NT.lcm([4, 6, 10])],
+        "b": lambda: [NT.is_prime(1000001), NT.is_prime(2147483647), NT.next_prime(7919), NT.factorization(1231 * 1249 * 7),
+                      NT.gcd([35, 49]), NT.lcm(3, 5, 7)],
+    }
+
+
 def run_unit(ctx, name, **kw):
+    if name == "interleaved":
+        from .purity import interleaved_pure
+        interleaved_pure(ctx, "numbertheory", [NT], _interleaved_jobs(), kw["stride"], max_schedules=kw["max"])
+        return
     if name == "is_prime-range":
         lo, hi = kw["lo"], kw["hi"]
         flags = RN.sieve_flags(max(hi, 2))
@@ -331,6 +345,10 @@ def run_unit(ctx, name, **kw):
 
 
 def replay(ctx, case):
+    if case.get("kind") == "interleaved":
+        from .purity import interleaved_pure
+        interleaved_pure(ctx, "numbertheory", [NT], _interleaved_jobs(), 1, max_schedules=4000)
+        return
     fn = case["fn"]
     if fn == "is_prime":
         check_is_prime(ctx, case["n"], RN.is_prime(case["n"]))
